@@ -21,7 +21,7 @@ func init() {
 	register("C12",
 		"Structural necessary conditions of C12 decided from /repo's syntax, constants and SSA — the thinnest claim of the nineteen, since the heart of C12 (correct rounding, half-unit error, monotonicity over 2^64 values) is numeric and NOT decided: (tables) the i-th multiplier of the metric table is 1000^i and of the binary table 1024^i with the SI/IEC prefix names, so the tables are non-empty, start at 1 and strictly increase; (exact) values below the first prefix are printed with an integer verb from the integer itself; (selection) the prefix loop is an ascending scan keeping the last prefix whose quotient is >= 1; (precision) for every branch of the precision switch, whole part in [L,U] with verb %.Pf gives at least three significant digits and at most five characters, U for the last prefix being floor((2^64-1)/multiplier); (unit-system) every report item whose unit is B is rendered with the 1024-based table and every other item with the 1000-based one.",
 		[]string{"fmt's %f rounding", "float64 conversion of uint64 (not decided)"},
-		ruleC12Tables, ruleC12Exact, ruleC12Selection, ruleC12Precision, ruleC12Mantissa, ruleC12WholePart, ruleC12UnitSystem)
+		ruleC12Tables, ruleC12Exact, ruleC12Selection, ruleC12Precision, ruleC12Mantissa, ruleC12WholePart, ruleC12UnitSystem, ruleC12Borrowed)
 }
 
 // ---------------- C11 ----------------
@@ -240,6 +240,32 @@ func ruleC11SameValue(c *Ctx) {
 	if extra > 0 {
 		c.violate("C11.same-value", "Emit:only-if", row.Pos(), name, "emission of a row depends on a further condition besides the concern rule")
 	}
+	// the value and unit columns are the humaner's rendering of that value on every path
+	nCol := 0
+	for _, a := range row.Call.Args {
+		ex, ok := c.resolve(a).(*ssa.Extract)
+		if ok && ex.Tuple == ssa.Value(format) {
+			nCol++
+		}
+	}
+	if nCol >= 2 {
+		c.hold("C11.same-value", "Emit:value-column", row.Pos(), "the value and unit columns are the two results of Humaner.Format(value, unit)")
+	} else {
+		c.violate("C11.same-value", "Emit:value-column", row.Pos(), name, "the value/unit columns are not, on every path, the results of Humaner.Format(value, unit): some values would be printed without (or with another) scaling than the exact JSON value's human-readable rendering")
+	}
+	// a citation (and with it a footnote) is created only for a row that is shown
+	allInstrs(emit, func(in ssa.Instruction) {
+		call, ok := in.(*ssa.Call)
+		if !ok || call.Call.StaticCallee() == nil || call.Call.StaticCallee().Name() != "CreateCitation" {
+			return
+		}
+		okShown := interesting != nil && guardedBy(call.Block(), func(cond ssa.Value, truth bool) bool { return cond == interesting && truth })
+		if okShown {
+			c.hold("C11.same-value", "Emit:citation-shown-only", call.Pos(), "footnotes are registered only for rows that pass the threshold")
+		} else {
+			c.violate("C11.same-value", "Emit:citation-shown-only", call.Pos(), name, "a citation is created before the row is known to be shown: hidden rows leave footnotes behind and shift the numbers of the visible ones")
+		}
+	})
 	lastArg := row.Call.Args[len(row.Call.Args)-1]
 	if marks != nil && c.resolve(lastArg) == marks {
 		c.hold("C11.same-value", "Emit:marks", row.Pos(), "the concern column is levelOfConcern's string")
@@ -1067,7 +1093,21 @@ func ruleC12UnitSystem(c *Ctx) {
 // was given (C14.families, reported here under C11's name): otherwise
 // `--threshold=1` or `--no-verbose` would filter with gitconfig's value.
 func ruleC11ThresholdSource(c *Ctx) {
-	c.RuleAlias = map[string]string{"C14.families": "C11.threshold-source"}
+	c.RuleAlias = map[string]string{"C14.families": "C11.threshold-source", "C14.constants": "C11.threshold-source"}
 	defer func() { c.RuleAlias = nil }()
 	ruleC14Families(c)
+	// --verbose/--critical/--threshold write the threshold the rows are filtered with, in
+	// command-line order, with their documented constants
+	ruleC14Constants(c)
+}
+
+// ruleC12Borrowed: the value column of the table is Humaner.Format's result
+// on every path (C11.same-value) and a value is shown as saturated only when
+// the counter really is (C05.render) — both are part of "the rendered numeral
+// is the value".
+func ruleC12Borrowed(c *Ctx) {
+	c.RuleAlias = map[string]string{"C11.same-value": "C12.rendered", "C05.render": "C12.rendered"}
+	defer func() { c.RuleAlias = nil }()
+	ruleC11SameValue(c)
+	ruleC05Render(c)
 }
